@@ -452,7 +452,8 @@ class PyExec:
                     if self.handler_matches(h, o.value):
                         s = o.st
                         if h.name:
-                            s.env[h.name] = o.value
+                            # the bound exception *object* (a value); Exc instances mark control flow only
+                            s.env[h.name] = PObj(o.value.cls, **{'$is_exception': True, 'args': o.value.msg})
                         saved = s.env.get('$handling')
                         s.env['$handling'] = o.value
                         hb = self.exec_block(h.body, s)
@@ -600,6 +601,10 @@ class PyExec:
                       'chr', 'abs', 'enumerate', 'zip', 'any', 'all', 'id', 'print'):
             yield st, ('$builtin', n.id)
         else:
+            for node in self.tree.body:
+                if isinstance(node, ast.FunctionDef) and node.name == n.id:
+                    yield st, ('$localfn', node)
+                    return
             v = self.module_constant(n.id)
             if v is None:
                 raise PyNotSupported("unknown name %s (line %d)" % (n.id, n.lineno))
@@ -1286,6 +1291,8 @@ class PyExec:
                 yield st, v
             elif ty_of(v) in ('int', 'bool') and is_sym(v):
                 yield st, SV(fmt_d(as_int_term(v)), 'str')
+            elif isinstance(v, PObj) and v.attrs.get('$is_exception'):
+                yield st, self.fresh('str_of_exception', 'str')
             elif not is_sym(v) and not isinstance(v, PObj):
                 yield st, str(v)
             else:
